@@ -36,10 +36,11 @@ Hypothesis names_opfree : forall n v, In (n, v) (flat_map (entry_adds O) T) ->
   forall w, In w (lwords O n) -> is_keyword_str w = false.
 (* the keys are what LicenseSymbol() makes of them (as in every table built by Licensing()) *)
 Hypothesis keys_valid : forall e, In e T -> mk_key O (ekey e) = Ok (ekey e).
-(* no two names of different licenses (or a license and an operator) have the same lower-cased words *)
+(* no two names of different licenses (or a license and an operator) have the same lower-cased words (blank aliases, which
+   have no words and are never stored, aside) *)
 Hypothesis names_unambiguous : forall n1 v1 n2 v2,
   In (n1, v1) (keyword_adds ++ flat_map (entry_adds O) T) -> In (n2, v2) (keyword_adds ++ flat_map (entry_adds O) T) ->
-  lwords O n1 = lwords O n2 -> v1 = v2.
+  lwords O n1 <> [] -> lwords O n1 = lwords O n2 -> v1 = v2.
 
 Lemma entry_value e n v : In (n, v) (entry_adds O e) -> v = VSym (entry_sym e).
 Proof.
@@ -90,7 +91,8 @@ Proof.
     + apply in_or_app. right. exact Hkin.
     + exact Kne.
     + rewrite Elw. destruct ws; [contradiction | discriminate].
-    + intros n' v' H' E'. apply (names_unambiguous n' v' k (VSym s) H'); [apply in_or_app; right; exact Hkin | exact E'].
+    + intros n' v' H' E'. apply (names_unambiguous n' v' k (VSym s) H'); [apply in_or_app; right; exact Hkin | | exact E'].
+      rewrite E', Elw. destruct ws; [contradiction | discriminate].
     + rewrite E0. reflexivity.
 Qed.
 
@@ -113,7 +115,7 @@ Hypothesis names_opfree : forall n v, In (n, v) (flat_map (entry_adds O) T) ->
 Hypothesis keys_valid : forall e, In e T -> mk_key O (ekey e) = Ok (ekey e).
 Hypothesis names_unambiguous : forall n1 v1 n2 v2,
   In (n1, v1) (keyword_adds ++ flat_map (entry_adds O) T) -> In (n2, v2) (keyword_adds ++ flat_map (entry_adds O) T) ->
-  lwords O n1 = lwords O n2 -> v1 = v2.
+  lwords O n1 <> [] -> lwords O n1 = lwords O n2 -> v1 = v2.
 
 Theorem plain_table_round_trip text wrap e : parse_tokens O T false false text = Ok e ->
   parse_tokens O T false false (render_with key wrap e) = Ok e.
